@@ -217,7 +217,7 @@ def stepRest (c : Ctx) (toks : List String) : Ctx × String :=
     | some sv =>
       match sv.ps.m with
       | some s =>
-        match findItem s.items s.best with
+        match findItem s.items (Proc.reportedId sv.ps s) with
         | some b => (c, s!"point={(hxs b.point).replace " " ","} value={hx b.hv} trials={s.nTrials} local={sv.ps.nLocal} accuracy={hxo s.minDelta "inf"}")
         | none => (c, "no-best")
       | none => (c, "fresh")
